@@ -25,6 +25,8 @@ def _cache_identity(node: HyperNode) -> str:
     targets = getattr(node, "targets", None)
     if targets is not None:
         parts.append(repr([str(t) for t in targets]))
+        # a stored decision of None resolves to the gate's own fallback
+        parts.append(repr(str(getattr(node, "fallback", None))))
     return "|".join(parts)
 
 
